@@ -603,6 +603,21 @@ fn verif_dir() -> std::path::PathBuf {
 
 fn check(tier: &str, seed: u64) -> i32 {
     let t0 = std::time::Instant::now();
+    if let Some(view) = token_carried_to_another_thread() {
+        if !view {
+            let dir = verif_dir().join("replays");
+            let _ = std::fs::create_dir_all(&dir);
+            let path = dir.join(format!("C20-{seed}-carried-token.json"));
+            let j = json!({"property": "C20", "tier": tier, "seed": seed, "run_index": 0, "tape": [], "probe": "carried-token",
+                "violation": {"class": "tracing.override-carried-across-threads", "features": "", "signature": "tracing.override-carried-across-threads",
+                "detail": "LocalEnableState is Send: thread A saved a Disabled override, thread B restored it and now sees tracing disabled although B never set an override and the global setting is on"}, "sim_version": "threads-sim-1"});
+            let _ = std::fs::write(&path, serde_json::to_string_pretty(&j).unwrap_or_default());
+            println!("violation tracing.override-carried-across-threads (static probe)");
+            println!("  a saved override can be moved to another thread and restored there: the receiving thread's view is then decided by state saved on the sending thread");
+            println!("VIOLATION property=C20 replay={}", path.display());
+            return 1;
+        }
+    }
     let total: u64 = std::env::var("VERIF_RUNS").ok().and_then(|s| s.parse().ok()).unwrap_or(200_000) * if tier == "thorough" { 10 } else { 1 };
     let workers: u64 = std::env::var("VERIF_WORKERS").ok().and_then(|s| s.parse().ok()).unwrap_or_else(|| std::thread::available_parallelism().map(|n| n.get() as u64).unwrap_or(4)).max(1);
     let exe = std::env::current_exe().unwrap();
@@ -766,6 +781,19 @@ fn replay(path: &str) -> i32 {
         eprintln!("{path} is not JSON");
         return 2;
     };
+    if j["probe"].as_str() == Some("carried-token") {
+        return match token_carried_to_another_thread() {
+            Some(false) => {
+                println!("replayed: tracing.override-carried-across-threads :: a saved override restored on another thread decides that thread's view");
+                println!("VIOLATION property=C20 replay={path}");
+                1
+            }
+            _ => {
+                println!("replayed: no violation (a saved override cannot leave its thread)");
+                0
+            }
+        };
+    }
     let tape_vals: Vec<u32> = j["tape"].as_array().map(|a| a.iter().map(|x| x.as_u64().unwrap_or(0) as u32).collect()).unwrap_or_default();
     // the run happens on a helper thread so that a hanging history can be reported
     let limit: u64 = std::env::var("VERIF_RUN_TIMEOUT_S").ok().and_then(|s| s.parse::<u64>().ok()).unwrap_or(60);
@@ -804,6 +832,57 @@ fn detlog(seed: u64, start: u64, stride: u64, end: u64) -> i32 {
         i += stride;
     }
     0
+}
+
+// Can a saved override be carried to another thread?  Today the type is `!Send`, which rules
+// it out at compile time.  If a change makes it `Send`, the autoref trick below picks the
+// `Send` implementation and the carrying is actually done: thread A saves a Disabled
+// override, thread B (no override of its own, global on) restores it and must still see
+// "enabled" - otherwise B's override was produced by state saved on A.
+struct Carrier<T>(std::cell::RefCell<Option<T>>, fn(T));
+trait CarryIfSend {
+    fn carry(&self) -> Option<bool>;
+}
+impl<T: Send + 'static> CarryIfSend for Carrier<T> {
+    fn carry(&self) -> Option<bool> {
+        let token = self.0.borrow_mut().take()?;
+        let restore = self.1;
+        Some(
+            std::thread::spawn(move || {
+                restore(token);
+                tracing_enabled::is_enabled()
+            })
+            .join()
+            .unwrap(),
+        )
+    }
+}
+trait CarryFallback {
+    fn carry(&self) -> Option<bool>;
+}
+impl<T> CarryFallback for &Carrier<T> {
+    fn carry(&self) -> Option<bool> {
+        None
+    }
+}
+
+/// None: the token cannot leave its thread (as today).  Some(view): it can, and `view` is what
+/// the receiving thread sees after restoring it.
+fn token_carried_to_another_thread() -> Option<bool> {
+    std::thread::spawn(|| {
+        tracing_enabled::enable();
+    })
+    .join()
+    .unwrap();
+    std::thread::spawn(|| {
+        tracing_enabled::local_disable();
+        let c = Carrier(std::cell::RefCell::new(Some(tracing_enabled::local_take())), tracing_enabled::restore);
+        // method resolution: `Carrier<T>: CarryIfSend` (by value receiver &self) wins when T: Send,
+        // otherwise the fallback implemented for `&Carrier<T>` is found one autoref later
+        (&c).carry()
+    })
+    .join()
+    .unwrap()
 }
 
 /// self-test of the oracle on hand-written histories (run by `./check --setup`)
